@@ -332,12 +332,21 @@ class Gate:
         self.active = False
         self.count = 0
         self.limit = None
+        self.once = False
+        self.fired = False
+        self.count_at_fire = 0
         self.on_remove = on_remove
 
     def tick(self):
         if not self.active:
             return
-        if self.limit is not None and self.count >= self.limit:
+        if self.limit is not None and self.count >= self.limit and not (self.once and self.fired):
+            # kill-style (default): every further action is refused too, nothing of the script's clean-up code can touch the
+            # directory; signal-style (`once`): the exception is delivered once (ctrl-c, a failing pipeline), `except` /
+            # `finally` blocks of the script run and their filesystem actions are performed
+            if not self.fired:
+                self.count_at_fire = self.count
+            self.fired = True
             raise Interrupt()
         self.count += 1
 
@@ -411,8 +420,9 @@ class Run:
     """one case: configuration + list of global interruption points (the n-th point counts the atomic actions
     performed since the previous interruption, across calls of the step function)"""
 
-    def __init__(self, cfg, crashes, workdir, pre=0, restart=False, main=False):
+    def __init__(self, cfg, crashes, workdir, pre=0, restart=False, main=False, signal=False):
         self.cfg = cfg
+        self.signal = signal      # interruptions are delivered as ONE exception (the script's handlers run) instead of a kill
         self.main = main          # drive the script's main() (one call = one process run) instead of the step function
         self.restart = restart or main    # a fresh module object for every call after an interruption / exception (process restart)
         self.extra_bad = None
@@ -429,6 +439,7 @@ class Run:
         with open(self.screen, "w") as f:
             f.write("input\n")
         self.gate = Gate(self.on_remove)
+        self.gate.once = signal
         self.events = []          # text events, same alphabet as the model's
         self.sched = []           # derived per-invocation budgets ("n" or int) for the model
         self.launches = []        # [step, launch text, completed?, launch dict]
@@ -584,6 +595,7 @@ class Run:
             with Patched(g):
                 for _ in range(max_invocations):
                     g.count = 0
+                    g.fired = False
                     g.limit = budget
                     g.active = True
                     self.modelled_done = False
@@ -631,7 +643,7 @@ class Run:
                         self.segments.append(0)
                         continue
                     if outcome[0] == "crash":
-                        self.sched.append(g.count)
+                        self.sched.append(g.count_at_fire if g.once else g.count)
                         if os.path.isdir(self.outdir):
                             self.hit_after_outdir = True
                         if (self.current_launch is not None and self.current_launch["wf"] == 3 and self.marker_published
@@ -833,6 +845,7 @@ def describe(cfg):
 def run_case(case, workdir, ref_cache=None):
     """-> (run, ref, findings)"""
     cfg, crashes, pre, main = case["cfg"], case["crashes"], case.get("pre", 0), bool(case.get("main"))
+    signal = case.get("kind") == "signal"
     key = (json.dumps(cfg, sort_keys=True), pre, main)
     ref = ref_cache.get(key) if ref_cache is not None else None
     if ref is None:
@@ -840,7 +853,7 @@ def run_case(case, workdir, ref_cache=None):
         ref.cleanup()
         if ref_cache is not None:
             ref_cache[key] = ref
-    run = Run(cfg, crashes, workdir, pre, main=main).go()
+    run = Run(cfg, crashes, workdir, pre, main=main, signal=signal).go()
     run.cleanup()
     return run, ref, judge(run, ref)
 
@@ -998,10 +1011,12 @@ def explore(cfg, pre, pairs, workdir):
     cache = {}
     results = []
 
-    def one(crashes, main=False):
+    def one(crashes, main=False, signal=False):
         case = {"cfg": cfg, "crashes": list(crashes), "pre": pre}
         if main:
             case["main"] = True
+        if signal:
+            case["kind"] = "signal"
         run, ref, findings = run_case(case, workdir, cache)
         classes = set(run.saw)
         if main:
@@ -1019,6 +1034,8 @@ def explore(cfg, pre, pairs, workdir):
             classes.add("size.plate-index>=2")
         if any(l["wf"] == 2 and l["excludes"] and len(l["excludes"]) >= 2 for _s, _t, _d, l in run.launches):
             classes.add("size.excludes>=2")
+        if signal:
+            classes.add("interruption.signal-style-handlers-run")
         if not main:
             classes.add("state-reuse.long-lived-module")     # one module object serves every step-function case of a check run
         results.append({"case": case, "line": None if main else run.driver_line(), "observed": run.observed(), "findings": findings,
@@ -1040,6 +1057,8 @@ def explore(cfg, pre, pairs, workdir):
         r1, _ = one([g1])
         if g1 % 6 == 0:
             one([g1], main=True)
+        if g1 % 3 == 1:
+            one([g1], signal=True)
         if pairs and len(r1.segments) > 1:
             for g2 in range(g1 % pairs, r1.segments[1], pairs):     # pairs = stride (1: every pair; quick tier: 2)
                 one([g1, g2])
